@@ -132,6 +132,9 @@ type c20Cfg struct {
 	//                6 = from another goroutine a pseudo-random 0..400 µs after Stop() was called
 	opts    string // builder options: high watermark in ms or "d" (builder default, 5 s), then optional letters
 	//                g = WithQueueGroup, h = WithRequestReceived/Started/FinishedEventHandler (own handlers)
+	subj    string // subjects the server is built with, and how the requests are spread over them: <k><p>, k in
+	//                1..4, p: s = round robin, f = all on the first, l = all on the last, u = three quarters on the
+	//                first and every fourth request on the last
 	durs    []int  // handler duration per request, in units of 100 µs
 	kinds   []byte // what the handler does per request: r small reply (default), x declared exception,
 	//                e undeclared error, u / a / o reply one byte under / exactly at / one byte over the NATS limit
@@ -158,6 +161,37 @@ func c20OptsOK(o string) bool {
 	}
 	fl := o[len(rest):]
 	return fl == "" || fl == "g" || fl == "h" || fl == "gh"
+}
+
+func (c c20Cfg) subjects() int {
+	if len(c.subj) == 2 {
+		return int(c.subj[0] - '0')
+	}
+	return 1
+}
+
+// subjectOf: the subject (index) request i is published on.
+func (c c20Cfg) subjectOf(i int) int {
+	k := c.subjects()
+	if k <= 1 || len(c.subj) != 2 {
+		return 0
+	}
+	switch c.subj[1] {
+	case 'f':
+		return 0
+	case 'l':
+		return k - 1
+	case 'u':
+		if i%4 == 3 {
+			return k - 1
+		}
+		return 0
+	}
+	return i % k
+}
+
+func c20SubjOK(x string) bool {
+	return len(x) == 2 && x[0] >= '1' && x[0] <= '4' && strings.IndexByte("sflu", x[1]) >= 0
 }
 
 func (c c20Cfg) faultKind() byte {
@@ -195,12 +229,16 @@ func (c c20Cfg) line() string {
 	if o == "" {
 		o = "d"
 	}
-	return fmt.Sprintf("nsrun %d %d %d %d %d %d %d %s %s %s", c.w, c.q, c.stopPos, c.gapUs, c.delayUs, c.jitUs, c.pub2, f, o, strings.Join(ds, ","))
+	sj := c.subj
+	if sj == "" {
+		sj = "1s"
+	}
+	return fmt.Sprintf("nsrun %d %d %d %d %d %d %d %s %s %s %s", c.w, c.q, c.stopPos, c.gapUs, c.delayUs, c.jitUs, c.pub2, f, o, sj, strings.Join(ds, ","))
 }
 
 func c20ParseCfg(args []string) (c20Cfg, bool) {
 	var c c20Cfg
-	if len(args) != 10 {
+	if len(args) != 11 {
 		return c, false
 	}
 	var err [7]error
@@ -227,7 +265,11 @@ func c20ParseCfg(args []string) (c20Cfg, bool) {
 	if !c20OptsOK(c.opts) {
 		return c, false
 	}
-	for _, t := range strings.Split(args[9], ",") {
+	c.subj = args[9]
+	if !c20SubjOK(c.subj) {
+		return c, false
+	}
+	for _, t := range strings.Split(args[10], ",") {
 		k := byte('r')
 		if n := len(t); n > 0 && strings.IndexByte("xeuao", t[n-1]) >= 0 {
 			k, t = t[n-1], t[:n-1]
@@ -416,7 +458,12 @@ func c20Execute(cfg c20Cfg) c20Result {
 		defer c2conn.Close()
 	}
 
-	reqSubject := fmt.Sprintf("c20q.%d", run.idx)
+	nSubj := cfg.subjects()
+	reqSubjects := make([]string, nSubj)
+	for j := range reqSubjects {
+		reqSubjects[j] = fmt.Sprintf("c20q.%d.%d", run.idx, j)
+	}
+	subjectFor := func(i int) string { return reqSubjects[cfg.subjectOf(i)] }
 	replyPrefix := fmt.Sprintf("c20r.%d.", run.idx)
 	var gotReplies int64
 	if _, err := cconn.Subscribe(replyPrefix+"*", func(m *nats.Msg) {
@@ -460,7 +507,7 @@ func c20Execute(cfg c20Cfg) c20Result {
 		return fail("client flush: " + err.Error())
 	}
 
-	builder := frugal.NewFNatsServerBuilder(sconn, newC20Processor(run), binFactory, []string{reqSubject}).
+	builder := frugal.NewFNatsServerBuilder(sconn, newC20Processor(run), binFactory, reqSubjects).
 		WithWorkerCount(uint(cfg.w)).WithQueueLength(uint(cfg.q))
 	if wm, set := cfg.watermark(); set {
 		builder = builder.WithHighWatermark(wm)
@@ -515,7 +562,7 @@ func c20Execute(cfg c20Cfg) c20Result {
 	}()
 	// Serve started: wait until its subscription is known to the broker
 	deadline := time.Now().Add(60 * time.Second)
-	for sconn.NumSubscriptions() < 1 {
+	for sconn.NumSubscriptions() < nSubj {
 		if time.Now().After(deadline) {
 			return fail("Serve did not subscribe within 60s")
 		}
@@ -563,7 +610,7 @@ func c20Execute(cfg c20Cfg) c20Result {
 		run.mu.Lock()
 		run.pubStart[i] = len(run.events)
 		run.mu.Unlock()
-		if err := cconn.PublishRequest(reqSubject, replyPrefix+strconv.FormatUint(run.idx*1000+uint64(i), 10), c20Frame(i)); err != nil {
+		if err := cconn.PublishRequest(subjectFor(i), replyPrefix+strconv.FormatUint(run.idx*1000+uint64(i), 10), c20Frame(i)); err != nil {
 			return err
 		}
 		if err := cconn.FlushTimeout(60 * time.Second); err != nil {
@@ -603,7 +650,7 @@ func c20Execute(cfg c20Cfg) c20Result {
 			run.mu.Lock()
 			run.pubStart[i] = len(run.events)
 			run.mu.Unlock()
-			if err := c2conn.PublishRequest(reqSubject, replyPrefix+strconv.FormatUint(run.idx*1000+uint64(i), 10), c20Frame(i)); err != nil {
+			if err := c2conn.PublishRequest(subjectFor(i), replyPrefix+strconv.FormatUint(run.idx*1000+uint64(i), 10), c20Frame(i)); err != nil {
 				pub2Done <- err
 				return
 			}
@@ -844,7 +891,17 @@ func c20Execute(cfg c20Cfg) c20Result {
 		blocked = eb-db > cfg.q
 	}
 	sort.Strings(complaints)
-	res := c20Result{trace: strings.Join(run.events, ","), blockd: blocked, nE: nE,
+	// the trace names the subject (= subscription) of every request that enters a callback
+	evs := make([]string, len(run.events))
+	for k, t := range run.events {
+		evs[k] = t
+		if t[0] == 'E' || t[0] == 'X' {
+			if i, err := strconv.Atoi(t[1:]); err == nil {
+				evs[k] = t + "/" + strconv.Itoa(cfg.subjectOf(i))
+			}
+		}
+	}
+	res := c20Result{trace: strings.Join(evs, ","), blockd: blocked, nE: nE,
 		end: fmt.Sprintf("serve:%s,stop:%s,arrived:%d,processed:%d,replied:%d,dropped:%d", serveState, stopState, nE, nProc, nRep, nX)}
 	if len(complaints) > 0 {
 		res.why = complaints[0]
@@ -895,6 +952,11 @@ func c20GenCfg(r *Rng) c20Cfg {
 	c.jitUs = r.Pick(0, 0, 0, 100, 1000, 3000)
 	c.pub2 = r.Pick(0, 0, 40, 120, 300)
 	c.fault = "-"
+	// subjects: half of the servers have one, the others 2..4 with the traffic spread evenly or unevenly
+	c.subj = "1s"
+	if r.Chance(50) {
+		c.subj = string([]byte{byte('2' + r.Intn(3)), "sflu"[r.Intn(4)]})
+	}
 	// builder options: the watermark below / around / far above the time the backlog needs (0 .. 400 ms here)
 	c.opts = []string{"d", "d", "0", "1", "5", "20", "100", "1000"}[r.Intn(8)]
 	if r.Chance(20) {
@@ -931,7 +993,7 @@ func c20GenCfg(r *Rng) c20Cfg {
 // (then it is Stop that waits). Returns the configuration and the nominal drain time in seconds.
 func c20SlowCfg(r *Rng, k int) (c20Cfg, int) {
 	mk := func(w, q, n, durMs int) c20Cfg {
-		c := c20Cfg{w: w, q: q, stopPos: n, delayUs: 2000, fault: "-", opts: "d"}
+		c := c20Cfg{w: w, q: q, stopPos: n, delayUs: 2000, fault: "-", opts: "d", subj: "1s"}
 		for i := 0; i < n; i++ {
 			c.durs = append(c.durs, durMs*10+r.Intn(200)) // + up to 20 ms
 		}
@@ -941,7 +1003,9 @@ func c20SlowCfg(r *Rng, k int) (c20Cfg, int) {
 	case 1: // the backlog sits in the SUBSCRIPTION queue for longer than the default watermark (5 s): it is Stop
 		// that waits (~7 s) while the handler feeds an unbuffered queue; 5 s into it several requests are still
 		// pending behind the one the handler is sending
-		return mk(1, r.Intn(2), 11+r.Intn(2), 700), 7
+		c := mk(1, r.Intn(2), 11+r.Intn(2), 700)
+		c.subj = []string{"1s", "2f", "3u"}[r.Intn(3)] // (with several subjects: the backlog is on the FIRST subscription)
+		return c, 7
 	case 8: // the same, far above every time constant of the code (5 s watermark, 10 s flush timeout)
 		return mk(1, 1, 16, 750), 12
 	case 9:
@@ -1160,7 +1224,7 @@ func c20RunConfigs(n int, gen func(k int) c20Cfg) {
 			defer wg.Done()
 			defer func() { <-sem }()
 			res := c20Execute(cfg)
-			line := fmt.Sprintf("nstrace %d %d %s", cfg.w, cfg.q, orDot(res.trace))
+			line := fmt.Sprintf("nstrace %d %d %d %s", cfg.w, cfg.q, cfg.subjects(), orDot(res.trace))
 			real := "ok end=" + res.end
 			Case(line, real)
 			Stat(fmt.Sprintf("w:%d", cfg.w))
@@ -1175,6 +1239,7 @@ func c20RunConfigs(n int, gen func(k int) c20Cfg) {
 			if cfg.pub2 > 0 {
 				Stat("second-publisher-across-stop")
 			}
+			Stat("subjects:" + cfg.subj)
 			if wm, set := cfg.watermark(); set {
 				Stat("opt:watermark:" + wm.String())
 			} else {
@@ -1311,20 +1376,21 @@ func init() {
 	// nstrace: a recorded trace; its observable is a projection of the recording, and the real
 	// server is exercised again with the same (w, q) and a burst of the same length.
 	lineOps["nstrace"] = func(args []string) (string, bool) {
-		if len(args) != 3 {
+		if len(args) != 4 {
 			return "bad-args", true
 		}
 		w, e1 := strconv.Atoi(args[0])
 		q, e2 := strconv.Atoi(args[1])
-		if e1 != nil || e2 != nil || w < 1 || w > 64 || q < 0 || q > 1024 {
+		k, e3 := strconv.Atoi(args[2])
+		if e1 != nil || e2 != nil || e3 != nil || w < 1 || w > 64 || q < 0 || q > 1024 || k < 1 || k > 4 {
 			return "bad-args", true
 		}
-		proj := c20Projection(args[2])
-		n := 1 + strings.Count(args[2], "E")
+		proj := c20Projection(args[3])
+		n := 1 + strings.Count(args[3], "E")
 		if n > 60 {
 			n = 60
 		}
-		cfg := c20Cfg{w: w, q: q, stopPos: n / 2, gapUs: 0, fault: "-", opts: "d"}
+		cfg := c20Cfg{w: w, q: q, stopPos: n / 2, gapUs: 0, fault: "-", opts: "d", subj: strconv.Itoa(k) + "s"}
 		for i := 0; i < n; i++ {
 			cfg.durs = append(cfg.durs, (i*7)%20)
 		}
